@@ -4,7 +4,7 @@ Each generated file is produced by the Go translator (go/harness/translator, bui
 overlay as the harnesses and run with cwd=/repo). A translator failure (unknown construct, missing
 function) is reported as a broken obligation; the previous generated file is left in place so that
 unrelated properties still build, but the property that owns the file fails."""
-import os, subprocess
+import os, subprocess, sys
 
 GEN = {
     "MldsaAlgebra": {
@@ -71,27 +71,17 @@ GEN.update({
         "owner": ["C01", "C02"], "tool": "gluetr",
         "args": ["-ns", "TinkVerif.Gen.GlueAead",
                  "-pkg", "aead/aesctrhmac", "-sub", "Aesctrhmac", "-funcs", "aadSizeInBits",
-                 "-pkg", "internal/aead", "-sub", "Gcmsiv",
-                 "-region", r"tagMask=computeTag|^subtle\.XORBytes\(polyval, polyval, nonce\)|^polyval\[.*\] &= |polyval",
-                 "-region", r"ctrInit=aesCTR|^var counter |^counterInc := |counter,counterInc",
-                 "-region", r"ctrStep=aesCTR|^counterInc\+\+|^binary\.LittleEndian\.PutUint32\(counter|counter,counterInc",
-                 "-region", r"lengthBlock=computePolyval|^var lengthBlock |^binary\.LittleEndian\.PutUint64\(lengthBlock\[8:\]|lengthBlock",
-                 "-region", r"nonceBlockInit=deriveKeys|^var nonceBlock |^copy\(nonceBlock|nonceBlock",
-                 "-region", r"kdfCounter=deriveKeys|^binary\.LittleEndian\.PutUint32\(nonceBlock|^binary\.LittleEndian\.PutUint32\(nonceBlock|nonceBlock",
                  "-pkg", "aead/xaesgcm", "-sub", "Xaesgcm", "-vars", "derivationBlock1Prefix,derivationBlock2Prefix",
-                 "-opaque", "derivePerMessageKey:a.prf.ComputePRF=prf", "-funcs", "derivePerMessageKey"],
+                 "-opaque", "derivePerMessageKey:r.prf.ComputePRF=prf", "-funcs", "derivePerMessageKey"],
     },
-    # wrappingSize and three small regions (older ties) + the WHOLE functions invertW / Wrap / Unwrap: round loops with the counter,
+    # wrappingSize + the WHOLE functions invertW / Wrap / Unwrap: round loops with the counter,
     # the slice views into the output buffer (it := wrapped[8:]; ri := it[:8]), the unwrap padding check
     "GlueKwp": {
         "owner": ["C08"], "tool": "gluetr",
         "args": ["-ns", "TinkVerif.Gen.GlueKwp",
                  "-pkg", "kwp/subtle", "-sub", "KwpGo", "-consts", "MinWrapSize,MaxWrapSize,roundCount,ivPrefix",
                  "-funcs", "wrappingSize,invertW,Wrap,Unwrap",
-                 "-block", "Wrap:kwp.block.Encrypt=E", "-block", "invertW:kwp.block.Decrypt=D",
-                 "-region", r"wrapBuffer=Wrap|^wrapped := make|^copy\(wrapped\[8:\], data\)|wrapped",
-                 "-region", r"aivInit=Wrap|^var buf \[16\]byte|^binary\.BigEndian\.PutUint32\(buf\[4:8\]|buf",
-                 "-region", r"roundXor=Wrap|^roundCounter\+\+|^subtle\.XORBytes\(buf\[4:8\]|buf,roundCounter,roundCounterBytes"],
+                 "-block", "Wrap:r.block.Encrypt=E", "-block", "invertW:r.block.Decrypt=D"],
     },
     # streamingaead/decrypt_reader.go: the record / replay buffer `unreader` (whole methods, stateful translation; the source
     # reader is an external object with an abstract state)
@@ -99,19 +89,17 @@ GEN.update({
         "owner": ["C05", "C07", "C14"], "tool": "gluetr",
         "args": ["-ns", "TinkVerif.Gen.GlueUnreader",
                  "-pkg", "streamingaead", "-sub", "Streamingaead", "-recv", "unreader", "-stateful", "Read,unread,disable",
-                 "-extern", "Read:u.r.Read=rd@u.r:read", "-funcs", "Read,unread,disable"],
+                 "-extern", "Read:r.r.Read=rd@r.r:read", "-funcs", "Read,unread,disable"],
     },
     # whole functions New / Compute / XOREndAndCompute (the block cipher is the parameter E; aes.NewCipher is an abstract
-    # constructor); the two small regions are kept for the older tie theorems
+    # constructor)
     "GlueCmac": {
         "owner": ["C04", "C08", "C15"], "tool": "gluetr",
         "args": ["-ns", "TinkVerif.Gen.GlueCmac",
                  "-pkg", "internal/mac/aescmac", "-sub", "Aescmac", "-consts", "BlockSize,mul,pad",
                  "-funcs", "mulByX,New,Compute,XOREndAndCompute",
-                 "-abstract", "New:aes.NewCipher", "-block", "New:cmac.bc.Encrypt=E", "-block", "Compute:c.bc.Encrypt=E",
-                 "-block", "XOREndAndCompute:c.bc.Encrypt=E",
-                 "-region", r"lastBlockInit=Compute|^var lastBlock |^var lastBlock |lastBlock",
-                 "-region", r"padLast=Compute|^copy\(lastBlock\[:\], data\[:\]\)|^lastBlock\[len\(data\)\] = pad|lastBlock"],
+                 "-abstract", "New:crypto/aes.NewCipher", "-block", "New:(crypto/cipher.Block).Encrypt=E", "-block", "Compute:r.bc.Encrypt=E",
+                 "-block", "XOREndAndCompute:r.bc.Encrypt=E"],
     },
     # internal/aead/aesctr.go whole functions: IV padding, Encrypt / Decrypt length checks and slicing.  crypto/cipher's CTR is
     # the parameter ctr (keyed by the IV handed to cipher.NewCTR), random.MustRand the parameter rand.
@@ -119,10 +107,10 @@ GEN.update({
         "owner": ["C01", "C02"], "tool": "gluetr",
         "args": ["-ns", "TinkVerif.Gen.GlueCtr",
                  "-pkg", "internal/aead", "-sub", "Aesctr", "-recv", "AESCTR", "-consts", "aesCTRMinIVSize",
-                 "-repr", "crypto/cipher.Stream=Bytes", "-ctor", "newCipher:cipher.NewCTR=1",
+                 "-repr", "crypto/cipher.Stream=Bytes", "-ctor", "newCipher:crypto/cipher.NewCTR=1",
                  "-funcs", "newCipher,Encrypt,Decrypt",
-                 "-fill", "Encrypt:random.MustRand=rand", "-apply", "Encrypt:stream.XORKeyStream=ctr",
-                 "-apply", "Decrypt:stream.XORKeyStream=ctr"],
+                 "-fill", "Encrypt:internal/random.MustRand=rand", "-apply", "Encrypt:(crypto/cipher.Stream).XORKeyStream=ctr",
+                 "-apply", "Decrypt:(crypto/cipher.Stream).XORKeyStream=ctr"],
     },
     # internal/aead/aesgcmsiv.go whole functions: the AES-GCM-SIV counter mode aesCTR (32-bit LE counter with wrap, partial last
     # block), computeTag, deriveKeys (local closure inlined), computePolyval, Decrypt.  AES is the parameter `aes key`, a cipher
@@ -134,23 +122,23 @@ GEN.update({
                  "-abs", "github.com/tink-crypto/tink-go/v2/internal/aead.Polyval=S_pv",
                  "-consts", "AESGCMSIVNonceSize,AESGCMSIVTagSize,aesgcmsivBlockSize,aesgcmsivPolyvalSize,maxAESGCMSIVKeySize",
                  "-funcs", "aesCTR,computeTag,deriveKeys,computePolyval,Decrypt",
-                 "-ctor", "aesCTR:aes.NewCipher=0", "-block", "aesCTR:block.Encrypt=aes",
-                 "-ctor", "computeTag:aes.NewCipher=0", "-block", "computeTag:block.Encrypt=aes",
-                 "-block", "deriveKeys:a.block.Encrypt=aes",
-                 "-opaque", "computePolyval:NewPolyval=pvNew", "-mutate", "computePolyval:p.Update=pvUpdate",
-                 "-opaque", "computePolyval:p.Finish=pvFinish"],
+                 "-ctor", "aesCTR:crypto/aes.NewCipher=0", "-block", "aesCTR:(crypto/cipher.Block).Encrypt=aes",
+                 "-ctor", "computeTag:crypto/aes.NewCipher=0", "-block", "computeTag:(crypto/cipher.Block).Encrypt=aes",
+                 "-block", "deriveKeys:r.block.Encrypt=aes",
+                 "-opaque", "computePolyval:NewPolyval=pvNew", "-mutate", "computePolyval:(internal/aead.Polyval).Update=pvUpdate",
+                 "-opaque", "computePolyval:(internal/aead.Polyval).Finish=pvFinish"],
     },
     # encrypt-then-MAC framing, whole functions: aead/aesctrhmac fullAEAD and aead/subtle EncryptThenAuthenticate
     "GlueEtm": {
         "owner": ["C01", "C02"], "tool": "gluetr",
         "args": ["-ns", "TinkVerif.Gen.GlueEtm",
                  "-pkg", "aead/aesctrhmac", "-sub", "AesctrhmacFull", "-funcs", "aadSizeInBits,Encrypt,Decrypt",
-                 "-inout", "Encrypt:a.aesCTR.Encrypt=ctrEnc", "-opaque", "Encrypt:a.hmac.ComputeMAC=hmac",
-                 "-opaque", "Decrypt:a.hmac.VerifyMAC=hmacVerify", "-inout", "Decrypt:a.aesCTR.Decrypt=ctrDec",
+                 "-inout", "Encrypt:r.aesCTR.Encrypt=ctrEnc", "-opaque", "Encrypt:r.hmac.ComputeMAC=hmac",
+                 "-opaque", "Decrypt:r.hmac.VerifyMAC=hmacVerify", "-inout", "Decrypt:r.aesCTR.Decrypt=ctrDec",
                  "-pkg", "aead/subtle", "-sub", "AeadSubtle", "-recv", "EncryptThenAuthenticate", "-consts", "minTagSizeInBytes",
                  "-funcs", "uint64ToByte,Encrypt,Decrypt",
-                 "-opaque", "Encrypt:e.indCPACipher.Encrypt=indEnc", "-opaque", "Encrypt:e.mac.ComputeMAC=mac",
-                 "-opaque", "Decrypt:e.mac.VerifyMAC=macVerify", "-opaque", "Decrypt:e.indCPACipher.Decrypt=indDec"],
+                 "-opaque", "Encrypt:r.indCPACipher.Encrypt=indEnc", "-opaque", "Encrypt:r.mac.ComputeMAC=mac",
+                 "-opaque", "Decrypt:r.mac.VerifyMAC=macVerify", "-opaque", "Decrypt:r.indCPACipher.Decrypt=indDec"],
     },
     # streamingaead/subtle/noncebased whole methods Writer.Write / Close, Reader.Read (stateful translation: receiver fields are
     # state; the underlying io.Writer / io.Reader are external objects; the segment ciphers are opaque)
@@ -160,12 +148,12 @@ GEN.update({
                  "-pkg", "streamingaead/subtle/noncebased", "-sub", "NoncebasedSeg",
                  "-errcodes", "io.EOF=2,io.ErrUnexpectedEOF=3,ErrCiphertextSegmentTooShort=4,ErrTooManySegments=5,ErrNonceSizeTooShort=6",
                  "-funcs", "generateSegmentNonce,Write,Close,Read", "-stateful", "Write,Close,Read",
-                 "-extern", "Write:w.w.Write=sink@w.w:write", "-extern", "Close:w.w.Write=sink@w.w:write",
+                 "-extern", "Write:r.w.Write=sink@r.w:write", "-extern", "Close:r.w.Write=sink@r.w:write",
                  "-extern", "Read:io.ReadFull=readFull@r.r:read",
-                 "-opaque", "Write:w.segmentEncrypterWithDst.EncryptSegmentWithDst=encDst",
-                 "-opaque", "Write:w.segmentEncrypter.EncryptSegment=enc",
-                 "-opaque", "Close:w.segmentEncrypterWithDst.EncryptSegmentWithDst=encDst",
-                 "-opaque", "Close:w.segmentEncrypter.EncryptSegment=enc",
+                 "-opaque", "Write:r.segmentEncrypterWithDst.EncryptSegmentWithDst=encDst",
+                 "-opaque", "Write:r.segmentEncrypter.EncryptSegment=enc",
+                 "-opaque", "Close:r.segmentEncrypterWithDst.EncryptSegmentWithDst=encDst",
+                 "-opaque", "Close:r.segmentEncrypter.EncryptSegment=enc",
                  "-opaque", "Read:r.segmentDecrypterWithDst.DecryptSegmentWithDst=decDst",
                  "-opaque", "Read:r.segmentDecrypter.DecryptSegment=dec"],
     },
@@ -173,10 +161,10 @@ GEN.update({
     "GlueRand": {
         "owner": ["C20"], "tool": "gluetr",
         "args": ["-ns", "TinkVerif.Gen.GlueRand",
-                 "-pkg", "internal/random", "-sub", "RandomInt", "-funcs", "MustRand", "-fill", "MustRand:rand.Read=rand",
+                 "-pkg", "internal/random", "-sub", "RandomInt", "-funcs", "MustRand", "-fill", "MustRand:crypto/rand.Read=rand",
                  "-pkg", "subtle/random", "-sub", "RandomSubtle", "-funcs", "GetRandomBytes,GetRandomUint32",
-                 "-fill", "GetRandomBytes:random.MustRand=rand", "-fill", "GetRandomUint32:random.MustRand=rand",
-                 "-pkg", "secretdata", "-sub", "Secretdata", "-funcs", "NewBytesFromRand", "-fill", "NewBytesFromRand:rand.Read=rand"],
+                 "-fill", "GetRandomBytes:internal/random.MustRand=rand", "-fill", "GetRandomUint32:internal/random.MustRand=rand",
+                 "-pkg", "secretdata", "-sub", "Secretdata", "-funcs", "NewBytesFromRand", "-fill", "NewBytesFromRand:crypto/rand.Read=rand"],
     },
     # keyset/validation.go Validate / validateKey / ValidateKeyVersion and keyset/handle.go hasSecrets, whole functions: the proto
     # structs are records of the fields the code reads, the duplicate-id map is a set, every key position is examined
@@ -194,7 +182,7 @@ GEN.update({
     "GlueManagerId": {
         "owner": ["C11", "C20"], "tool": "gluetr",
         "args": ["-ns", "TinkVerif.Gen.GlueManagerId", "-pkg", "keyset", "-sub", "ManagerGo", "-recv", "Manager",
-                 "-stateful", "newRandomKeyID", "-extern", "newRandomKeyID:random.GetRandomUint32=draw@tape:value",
+                 "-stateful", "newRandomKeyID", "-extern", "newRandomKeyID:subtle/random.GetRandomUint32=draw@tape:value",
                  "-funcs", "newRandomKeyID"],
     },
     # MAC wrappers, whole functions: LEGACY suffix, prefix framing, tag truncation, parameter guards
@@ -202,13 +190,13 @@ GEN.update({
         "owner": ["C04"], "tool": "gluetr",
         "args": ["-ns", "TinkVerif.Gen.GlueMacWrap"] + sum((
                  ["-pkg", p, "-sub", sub, "-consts", "VariantTink,VariantCrunchy,VariantLegacy,VariantNoPrefix",
-                  "-funcs", "message,ComputeMAC,VerifyMAC", "-opaque", "ComputeMAC:m.rawMAC.ComputeMAC=raw",
-                  "-opaque", "VerifyMAC:m.rawMAC.VerifyMAC=rawVerify"]
+                  "-funcs", "message,ComputeMAC,VerifyMAC", "-opaque", "ComputeMAC:r.rawMAC.ComputeMAC=raw",
+                  "-opaque", "VerifyMAC:r.rawMAC.VerifyMAC=rawVerify"]
                  for p, sub in (("mac/aescmac", "AescmacMac"), ("mac/hmac", "HmacMac"))), []) + [
                  "-pkg", "mac/subtle", "-sub", "MacSubtle", "-recv", "AESCMAC",
                  "-consts", "minCMACKeySizeInBytes,recommendedCMACKeySizeInBytes,minTagLengthInBytes,maxTagLengthInBytes",
                  "-funcs", "ValidateCMACParams,ComputeMAC,VerifyMAC",
-                 "-opaque", "ComputeMAC:a.cmac.Compute=cmac", "-opaque", "VerifyMAC:a.cmac.Compute=cmac"],
+                 "-opaque", "ComputeMAC:r.cmac.Compute=cmac", "-opaque", "VerifyMAC:r.cmac.Compute=cmac"],
     },
     # daead/subtle/aes_siv.go whole functions (s2v, ctrCrypt IV masking, Encrypt/Decrypt slicing and size checks) and the
     # daead/aessiv prefix wrapper.  CMAC (tied in GlueCmac) and crypto/cipher's CTR are parameters.
@@ -218,17 +206,17 @@ GEN.update({
                  "-pkg", "daead/subtle", "-sub", "SivGo", "-consts", "AESSIVKeySize", "-vars", "zeroBlock",
                  "-repr", "crypto/cipher.Stream=Bytes",
                  "-funcs", "multiplyByX,s2v,ctrCrypt,EncryptDeterministically,DecryptDeterministically",
-                 "-opaque", "s2v:asc.cmac.Compute=cmac", "-opaque", "s2v:asc.cmac.XOREndAndCompute=xorEnd",
-                 "-abstract", "ctrCrypt:aes.NewCipher", "-ctor", "ctrCrypt:cipher.NewCTR=1", "-apply", "ctrCrypt:steam.XORKeyStream=ctr",
+                 "-opaque", "s2v:r.cmac.Compute=cmac", "-opaque", "s2v:r.cmac.XOREndAndCompute=xorEnd",
+                 "-abstract", "ctrCrypt:crypto/aes.NewCipher", "-ctor", "ctrCrypt:crypto/cipher.NewCTR=1", "-apply", "ctrCrypt:(crypto/cipher.Stream).XORKeyStream=ctr",
                  "-pkg", "daead/aessiv", "-sub", "AessivFull", "-funcs", "EncryptDeterministically,DecryptDeterministically",
-                 "-opaque", "EncryptDeterministically:a.rawAESSIV.EncryptDeterministically=rawEnc",
-                 "-opaque", "DecryptDeterministically:a.rawAESSIV.DecryptDeterministically=rawDec"],
+                 "-opaque", "EncryptDeterministically:r.rawAESSIV.EncryptDeterministically=rawEnc",
+                 "-opaque", "DecryptDeterministically:r.rawAESSIV.DecryptDeterministically=rawDec"],
     },
     "GluePrf": {
         "owner": ["C15"], "tool": "gluetr",
         "args": ["-ns", "TinkVerif.Gen.GluePrf",
                  "-pkg", "prf/subtle", "-sub", "PrfSubtle", "-recv", "AESCMACPRF", "-funcs", "ValidateAESCMACPRFParams,ComputePRF",
-                 "-opaque", "ComputePRF:a.cmac.Compute=cmac"],
+                 "-opaque", "ComputePRF:r.cmac.Compute=cmac"],
     },
     "GlueHpke": {
         "owner": ["C06"], "tool": "gluetr",
@@ -236,13 +224,57 @@ GEN.update({
                  "-pkg", "hybrid/internal/hpke", "-sub", "HpkeGo", "-consts", "hpkeV1,baseMode", "-vars", "emptySalt,emptyIKM",
                  "-funcs", "kemSuiteID,hpkeSuiteID,keyScheduleContext,labelIKM,labelInfo,createContext,computeNonce",
                  # whole createContext (RFC 9180 key schedule) and computeNonce; the KEM/KDF/AEAD objects and big.Int are parameters
-                 "-opaque", "createContext:kem.id=kemID", "-opaque", "createContext:kdf.id=kdfID", "-opaque", "createContext:aead.id=aeadID",
-                 "-opaque", "createContext:aead.keyLength=keyLen", "-opaque", "createContext:aead.nonceLength=nonceLen",
-                 "-opaque", "createContext:kdf.labeledExtract=extract", "-opaque", "createContext:kdf.labeledExpand=expand",
-                 "-opaque", "computeNonce:c.sequenceNumber.Bytes=seqBytes"],
+                 "-opaque", "createContext:a2.id=kemID", "-opaque", "createContext:a3.id=kdfID", "-opaque", "createContext:a4.id=aeadID",
+                 "-opaque", "createContext:a4.keyLength=keyLen", "-opaque", "createContext:a4.nonceLength=nonceLen",
+                 "-opaque", "createContext:a3.labeledExtract=extract", "-opaque", "createContext:a3.labeledExpand=expand",
+                 "-opaque", "computeNonce:r.sequenceNumber.Bytes=seqBytes"],
     },
     "GluePrefixKeys": {"owner": ["C05"], "tool": "gluetr", "args": _prefix_keys()},
 })
+
+
+def _strip_comments(s):
+    import re
+    return re.sub(r"/-.*?-/", "", s, flags=re.S)
+
+
+def gengood_path(verif, n):
+    return os.path.join(verif, "lean", "TinkVerif", "GenGood", n + ".lean")
+
+
+def accept_gen(verif, names=None):
+    """Make the current regenerated glue files the committed last-good copies (lean/TinkVerif/GenGood/Glue*.lean, namespace
+    TinkVerif.GenGood.*).  Run explicitly (`python3 vlib/gen.py --accept-gen [names]`), never by ./check."""
+    os.makedirs(os.path.join(verif, "lean", "TinkVerif", "GenGood"), exist_ok=True)
+    done = []
+    for n, g in GEN.items():
+        if g.get("tool") != "gluetr" or (names and n not in names):
+            continue
+        src = os.path.join(verif, "lean", "TinkVerif", "Gen", n + ".lean")
+        if not os.path.exists(src):
+            continue
+        text = open(src).read().replace("TinkVerif.Gen.", "TinkVerif.GenGood.")
+        text = text.replace("/- GENERATED by", "/- LAST-GOOD COPY (vlib/gen.py --accept-gen) of a file GENERATED by", 1)
+        with open(gengood_path(verif, n), "w") as fh:
+            fh.write(text)
+        done.append(n)
+    return done
+
+
+def glue_diff(verif, n, new_text):
+    """If the regenerated glue file differs (comments aside) from its last-good copy, search a concrete input on which a
+    function of the two versions differs (vlib/gluediff.py).  Returns the GLUE-DIFF lines (possibly empty)."""
+    good = gengood_path(verif, n)
+    if not os.path.exists(good):
+        return []
+    if _strip_comments(open(good).read().replace("TinkVerif.GenGood.", "TinkVerif.Gen.")) == _strip_comments(new_text):
+        return []
+    try:
+        p = subprocess.run([sys.executable, os.path.join(verif, "vlib", "gluediff.py"), n, "--lean", os.path.join(verif, "lean")],
+                           stdout=subprocess.PIPE, stderr=subprocess.STDOUT, text=True, timeout=300)
+        return [l for l in p.stdout.split("\n") if l.startswith("GLUE-DIFF")]
+    except Exception as e:  # the search is a convenience: never let it break a check
+        return ["GLUE-DIFF-SKIP: %s: %s" % (n, e)]
 
 
 def regenerate(prop, repo, verif, build, build_harness=None):
@@ -280,7 +312,26 @@ def regenerate(prop, repo, verif, build, build_harness=None):
         if new != old:
             with open(out, "w") as fh:
                 fh.write(new)
-        res["files"].append("TinkVerif/Gen/%s.lean (regenerated from /repo, %d bytes%s)" %
-                            (n, len(new), "" if new == old else ", CHANGED since last run"))
+        note = ""
+        if g.get("tool") == "gluetr":
+            # model-side counterexample search against the committed last-good regeneration (only when the text differs)
+            lines = glue_diff(verif, n, new)
+            for l in lines:
+                print("# " + l[:600])
+            hits = [l for l in lines if l.startswith("GLUE-DIFF:")]
+            if lines:
+                res.setdefault("gluediff", []).extend(lines)
+                note = "; differs from GenGood: %d function(s) with a concrete differing input%s" % (
+                    len(hits), (" — " + hits[0][:300]) if hits else "")
+        res["files"].append("TinkVerif/Gen/%s.lean (regenerated from /repo, %d bytes%s%s)" %
+                            (n, len(new), "" if new == old else ", CHANGED since last run", note))
         res["discharged"] += 1
     return res
+
+
+if __name__ == "__main__":
+    if len(sys.argv) >= 2 and sys.argv[1] == "--accept-gen":
+        verif = os.path.dirname(os.path.dirname(os.path.abspath(__file__)))
+        print("accepted as last-good:", ", ".join(accept_gen(verif, sys.argv[2:] or None)))
+    else:
+        print("usage: python3 vlib/gen.py --accept-gen [GlueName ...]   (copies lean/TinkVerif/Gen/Glue*.lean to GenGood/)")
